@@ -722,3 +722,20 @@ def callers_closure(ex, target):
                 todo.append(c)
     entries = {r for r in reach if not (edges.get(r, set()) - {r})}
     return reach, entries
+
+
+def snapshot(ex, p, v, depth=0):
+    """value with every pointer (transitively, through aggregates) replaced by what it points to NOW: call arguments that refer to locals of the
+    caller are unreadable once those locals are dead, so models that want to inspect them later take a snapshot at the call"""
+    if depth > 6:
+        return v
+    if isinstance(v, Ptr):
+        try:
+            return snapshot(ex, p, ex.read_loc(p, None, v.key, v.projs), depth + 1)
+        except Exception:
+            return v
+    if isinstance(v, Agg):
+        return Agg(v.name, v.variant, tuple(snapshot(ex, p, f, depth + 1) for f in v.fields), v.kind, v.fnames)
+    if isinstance(v, Sym) and isinstance(v.get_ov('items'), Agg):
+        return v.with_ov('items', snapshot(ex, p, v.get_ov('items'), depth + 1))
+    return v
